@@ -340,8 +340,10 @@ class SignatureArguments(LoggerProperty):
         if default == inspect_empty:
             default = param.default
             if default == inspect_empty:
-                if is_optional(annotation):
-                    default = None
+                if is_optional(annotation) or (
+                    get_typehint_origin(annotation) == Union and type(None) in annotation.__args__
+                ):
+                    default = None  # also Optional[Union[...]], which is a Union of more than two members
                 elif get_typehint_origin(annotation) in not_required_types:
                     default = SUPPRESS
         is_required = default == inspect_empty
